@@ -111,8 +111,76 @@ pub struct Timespec {
     tv_nsec: c_long,
 }
 
-extern "C" {
-    fn syscall(num: c_long, ...) -> c_long;
+/// A system call made directly (kernel convention: a negative return value is `-errno`). The
+/// harness never goes through libc's `syscall` for its own needs, because that symbol is a seam too.
+#[inline(never)]
+unsafe fn raw_syscall(num: c_long, a1: usize, a2: usize, a3: usize, a4: usize, a5: usize, a6: usize) -> c_long {
+    let ret: c_long;
+    std::arch::asm!(
+        "syscall",
+        inlateout("rax") num => ret,
+        in("rdi") a1,
+        in("rsi") a2,
+        in("rdx") a3,
+        in("r10") a4,
+        in("r8") a5,
+        in("r9") a6,
+        lateout("rcx") _,
+        lateout("r11") _,
+        options(nostack)
+    );
+    ret
+}
+
+macro_rules! sys {
+    ($num:expr) => { raw_syscall($num as c_long, 0, 0, 0, 0, 0, 0) };
+    ($num:expr, $a:expr) => { raw_syscall($num as c_long, $a as usize, 0, 0, 0, 0, 0) };
+    ($num:expr, $a:expr, $b:expr) => { raw_syscall($num as c_long, $a as usize, $b as usize, 0, 0, 0, 0) };
+    ($num:expr, $a:expr, $b:expr, $c:expr) => { raw_syscall($num as c_long, $a as usize, $b as usize, $c as usize, 0, 0, 0) };
+    ($num:expr, $a:expr, $b:expr, $c:expr, $d:expr) => { raw_syscall($num as c_long, $a as usize, $b as usize, $c as usize, $d as usize, 0, 0) };
+    ($num:expr, $a:expr, $b:expr, $c:expr, $d:expr, $e:expr) => { raw_syscall($num as c_long, $a as usize, $b as usize, $c as usize, $d as usize, $e as usize, 0) };
+}
+
+/// libc's `syscall(2)` wrapper: code that avoids the libc wrappers ("no libc dependency") reaches
+/// the clock, the random pool and the identity of the process through it. For simulated caller
+/// threads those numbers are served by the same seams; everything else, and every other thread
+/// (std's futex calls come through here), is passed to the kernel unchanged.
+#[no_mangle]
+pub unsafe extern "C" fn syscall(num: c_long, a1: usize, a2: usize, a3: usize, a4: usize, a5: usize, a6: usize) -> c_long {
+    if !active().is_null() {
+        match num {
+            228 => return clock_gettime(a1 as c_int, a2 as *mut Timespec) as c_long,
+            318 => return getrandom(a1 as *mut c_void, a2, a3 as c_uint) as c_long,
+            201 => return time(a1 as *mut i64) as c_long,
+            96 => return gettimeofday(a1 as *mut i64, a2 as *mut c_void) as c_long,
+            39 => return getpid() as c_long,
+            110 => return getppid() as c_long,
+            186 => return gettid() as c_long,
+            102 => return getuid() as c_long,
+            107 => return geteuid() as c_long,
+            104 => return getgid() as c_long,
+            108 => return getegid() as c_long,
+            95 => return umask(a1 as c_uint) as c_long,
+            63 => return uname(a1 as *mut u8) as c_long,
+            309 => {
+                let cpu = sched_getcpu();
+                if a1 != 0 {
+                    *(a1 as *mut c_uint) = cpu as c_uint;
+                }
+                if a2 != 0 {
+                    *(a2 as *mut c_uint) = 0;
+                }
+                return 0;
+            }
+            _ => {}
+        }
+    }
+    let r = raw_syscall(num, a1, a2, a3, a4, a5, a6);
+    if (-4095..0).contains(&r) {
+        *__errno_location() = (-r) as c_int;
+        return -1;
+    }
+    r
 }
 
 #[cfg(not(all(target_os = "linux", target_arch = "x86_64")))]
@@ -167,7 +235,12 @@ pub unsafe extern "C" fn clock_gettime(clk: c_int, ts: *mut Timespec) -> c_int {
             return 0;
         }
     }
-    syscall(SYS_CLOCK_GETTIME, clk as c_long, ts) as c_int
+    let r = sys!(SYS_CLOCK_GETTIME, clk as c_long, ts);
+    if r < 0 {
+        *__errno_location() = (-r) as c_int;
+        return -1;
+    }
+    0
 }
 
 #[no_mangle]
@@ -191,7 +264,12 @@ pub unsafe extern "C" fn getrandom(buf: *mut c_void, len: usize, flags: c_uint) 
         }
         return len as isize;
     }
-    syscall(SYS_GETRANDOM, buf, len, flags as c_long) as isize
+    let r = sys!(SYS_GETRANDOM, buf, len, flags as c_long);
+    if r < 0 {
+        *__errno_location() = (-r) as c_int;
+        return -1;
+    }
+    r as isize
 }
 
 extern "C" {
@@ -383,7 +461,7 @@ unsafe fn sim_open(dirfd: c_long, path: *const std::os::raw::c_char, flags: c_in
             return -1;
         }
     }
-    let r = syscall(SYS_OPENAT, dirfd, path, flags as c_long, mode as c_long);
+    let r = sys!(SYS_OPENAT, dirfd, path, flags as c_long, mode as c_long);
     if r < 0 {
         *__errno_location() = (-r) as c_int;
         return -1;
@@ -474,7 +552,7 @@ pub unsafe extern "C" fn realpath(path: *const std::os::raw::c_char, resolved: *
             }
             let text = std::ffi::CStr::from_ptr(path).to_string_lossy().to_string();
             let mut buf = [0u8; 4096];
-            let cwd = if syscall(79, buf.as_mut_ptr(), 4096 as c_long) > 0 {
+            let cwd = if sys!(79, buf.as_mut_ptr(), 4096 as c_long) > 0 {
                 std::ffi::CStr::from_ptr(buf.as_ptr() as *const std::os::raw::c_char).to_string_lossy().to_string()
             } else {
                 "/".to_string()
@@ -518,7 +596,7 @@ pub unsafe extern "C" fn access(path: *const std::os::raw::c_char, mode: c_int) 
             -1
         }
         None => {
-            let r = syscall(21, path, mode as c_long);
+            let r = sys!(21, path, mode as c_long);
             if r < 0 {
                 *__errno_location() = (-r) as c_int;
                 -1
@@ -549,7 +627,7 @@ pub unsafe extern "C" fn statx(dirfd: c_int, path: *const std::os::raw::c_char, 
             -1
         }
         None => {
-            let r = syscall(332, dirfd as c_long, path, flags as c_long, mask as c_long, buf);
+            let r = sys!(332, dirfd as c_long, path, flags as c_long, mask as c_long, buf);
             if r < 0 {
                 *__errno_location() = (-r) as c_int;
                 -1
@@ -577,7 +655,7 @@ pub unsafe extern "C" fn isatty(fd: c_int) -> c_int {
     }
     // TCGETS
     let mut termios = [0u8; 64];
-    let r = syscall(16, fd as c_long, 0x5401 as c_long, termios.as_mut_ptr());
+    let r = sys!(16, fd as c_long, 0x5401 as c_long, termios.as_mut_ptr());
     if r == 0 {
         1
     } else {
@@ -605,7 +683,7 @@ pub unsafe extern "C" fn getcwd(buf: *mut std::os::raw::c_char, size: usize) -> 
         std::ptr::copy_nonoverlapping(d.as_ptr(), buf as *mut u8, d.len());
         return buf;
     }
-    let r = syscall(79, buf, size as c_long);
+    let r = sys!(79, buf, size as c_long);
     if r < 0 {
         *__errno_location() = (-r) as c_int;
         return std::ptr::null_mut();
@@ -633,7 +711,7 @@ pub unsafe extern "C" fn sched_getaffinity(pid: c_int, size: usize, mask: *mut u
         }
         return 0;
     }
-    let r = syscall(204, pid as c_long, size as c_long, mask);
+    let r = sys!(204, pid as c_long, size as c_long, mask);
     if r < 0 {
         *__errno_location() = (-r) as c_int;
         return -1;
@@ -668,7 +746,7 @@ fn sim_identity(tag: u64, what: &str, modulo: u64) -> Option<u64> {
 pub unsafe extern "C" fn getpid() -> c_int {
     match sim_identity(0xA1, "getpid", 4_000_000) {
         Some(v) => 2 + v as c_int,
-        None => syscall(39) as c_int,
+        None => sys!(39) as c_int,
     }
 }
 
@@ -676,7 +754,7 @@ pub unsafe extern "C" fn getpid() -> c_int {
 pub unsafe extern "C" fn getppid() -> c_int {
     match sim_identity(0xA2, "getppid", 4_000_000) {
         Some(v) => 1 + v as c_int,
-        None => syscall(110) as c_int,
+        None => sys!(110) as c_int,
     }
 }
 
@@ -684,7 +762,7 @@ pub unsafe extern "C" fn getppid() -> c_int {
 pub unsafe extern "C" fn gettid() -> c_int {
     match sim_identity(0xA9, "gettid", 4_000_000) {
         Some(v) => 2 + v as c_int,
-        None => syscall(186) as c_int,
+        None => sys!(186) as c_int,
     }
 }
 
@@ -692,7 +770,7 @@ pub unsafe extern "C" fn gettid() -> c_int {
 pub unsafe extern "C" fn getuid() -> c_uint {
     match sim_identity(0xA3, "getuid", 3) {
         Some(v) => [0u32, 1000, 60_001][v as usize],
-        None => syscall(102) as c_uint,
+        None => sys!(102) as c_uint,
     }
 }
 
@@ -700,7 +778,7 @@ pub unsafe extern "C" fn getuid() -> c_uint {
 pub unsafe extern "C" fn geteuid() -> c_uint {
     match sim_identity(0xA3, "geteuid", 3) {
         Some(v) => [0u32, 1000, 60_001][v as usize],
-        None => syscall(107) as c_uint,
+        None => sys!(107) as c_uint,
     }
 }
 
@@ -708,7 +786,7 @@ pub unsafe extern "C" fn geteuid() -> c_uint {
 pub unsafe extern "C" fn getgid() -> c_uint {
     match sim_identity(0xA4, "getgid", 3) {
         Some(v) => [0u32, 100, 60_001][v as usize],
-        None => syscall(104) as c_uint,
+        None => sys!(104) as c_uint,
     }
 }
 
@@ -716,7 +794,7 @@ pub unsafe extern "C" fn getgid() -> c_uint {
 pub unsafe extern "C" fn getegid() -> c_uint {
     match sim_identity(0xA4, "getegid", 3) {
         Some(v) => [0u32, 100, 60_001][v as usize],
-        None => syscall(108) as c_uint,
+        None => sys!(108) as c_uint,
     }
 }
 
@@ -737,7 +815,7 @@ pub unsafe extern "C" fn gethostname(buf: *mut std::os::raw::c_char, len: usize)
     }
     // struct utsname: six fields of 65 bytes; nodename is the second
     let mut uts = [0u8; 65 * 6];
-    let r = syscall(63, uts.as_mut_ptr());
+    let r = sys!(63, uts.as_mut_ptr());
     if r < 0 || buf.is_null() || len == 0 {
         *__errno_location() = 22;
         return -1;
@@ -755,7 +833,7 @@ pub unsafe extern "C" fn uname(buf: *mut u8) -> c_int {
         *__errno_location() = 14;
         return -1;
     }
-    let r = syscall(63, buf);
+    let r = sys!(63, buf);
     if r < 0 {
         *__errno_location() = (-r) as c_int;
         return -1;
@@ -793,7 +871,7 @@ pub unsafe extern "C" fn readlink(path: *const std::os::raw::c_char, buf: *mut u
     if let Some(r) = sim_readlink(path, buf, size) {
         return r;
     }
-    let r = syscall(89, path, buf, size as c_long);
+    let r = sys!(89, path, buf, size as c_long);
     if r < 0 {
         *__errno_location() = (-r) as c_int;
         return -1;
@@ -806,7 +884,7 @@ pub unsafe extern "C" fn readlinkat(dirfd: c_int, path: *const std::os::raw::c_c
     if let Some(r) = sim_readlink(path, buf, size) {
         return r;
     }
-    let r = syscall(267, dirfd as c_long, path, buf, size as c_long);
+    let r = sys!(267, dirfd as c_long, path, buf, size as c_long);
     if r < 0 {
         *__errno_location() = (-r) as c_int;
         return -1;
@@ -842,7 +920,7 @@ pub unsafe extern "C" fn time(out: *mut i64) -> i64 {
         Some(v) => v as i64,
         None => {
             let mut ts = Timespec { tv_sec: 0, tv_nsec: 0 };
-            syscall(SYS_CLOCK_GETTIME, 0 as c_long, &mut ts as *mut Timespec);
+            sys!(SYS_CLOCK_GETTIME, 0 as c_long, &mut ts as *mut Timespec);
             ts.tv_sec
         }
     };
@@ -864,7 +942,7 @@ pub unsafe extern "C" fn gettimeofday(tv: *mut i64, _tz: *mut c_void) -> c_int {
         }
         None => {
             let mut ts = Timespec { tv_sec: 0, tv_nsec: 0 };
-            syscall(SYS_CLOCK_GETTIME, 0 as c_long, &mut ts as *mut Timespec);
+            sys!(SYS_CLOCK_GETTIME, 0 as c_long, &mut ts as *mut Timespec);
             *tv = ts.tv_sec;
             *tv.add(1) = (ts.tv_nsec / 1000) as i64;
         }
@@ -891,7 +969,7 @@ pub unsafe extern "C" fn umask(new: c_uint) -> c_uint {
         st.umask_set = Some((epoch, new & 0o777));
         return old;
     }
-    syscall(95, new as c_long) as c_uint
+    sys!(95, new as c_long) as c_uint
 }
 
 /// `sysconf`: the processor counts (`_SC_NPROCESSORS_CONF` 83, `_SC_NPROCESSORS_ONLN` 84) follow
@@ -949,7 +1027,7 @@ pub unsafe extern "C" fn getrusage(who: c_int, usage: *mut u8) -> c_int {
         *(usage.add(32) as *mut i64) = 4096 + (t % 512) as i64; // ru_maxrss
         return 0;
     }
-    let r = syscall(98, who as c_long, usage);
+    let r = sys!(98, who as c_long, usage);
     if r < 0 {
         *__errno_location() = (-r) as c_int;
         return -1;
@@ -968,7 +1046,7 @@ pub unsafe extern "C" fn times(buf: *mut c_long) -> c_long {
         }
         return 1_000_000 + t as c_long;
     }
-    syscall(100, buf)
+    sys!(100, buf)
 }
 
 #[no_mangle]
@@ -978,7 +1056,7 @@ pub unsafe extern "C" fn clock() -> c_long {
     }
     let mut ts = Timespec { tv_sec: 0, tv_nsec: 0 };
     // CLOCK_PROCESS_CPUTIME_ID
-    syscall(SYS_CLOCK_GETTIME, 2 as c_long, &mut ts as *mut Timespec);
+    sys!(SYS_CLOCK_GETTIME, 2 as c_long, &mut ts as *mut Timespec);
     (ts.tv_sec * 1_000_000 + ts.tv_nsec as i64 / 1000) as c_long
 }
 
@@ -1022,7 +1100,7 @@ pub unsafe extern "C" fn sched_getcpu() -> c_int {
         return v as c_int;
     }
     let mut cpu: c_uint = 0;
-    let r = syscall(309, &mut cpu as *mut c_uint, std::ptr::null_mut::<c_uint>(), std::ptr::null_mut::<c_void>());
+    let r = sys!(309, &mut cpu as *mut c_uint, std::ptr::null_mut::<c_uint>(), std::ptr::null_mut::<c_void>());
     if r < 0 {
         *__errno_location() = (-r) as c_int;
         return -1;
